@@ -1,10 +1,12 @@
 package main
 
 import (
+	"bytes"
 	"flag"
 	"fmt"
 	"path/filepath"
 	"strings"
+	"time"
 
 	sdk "github.com/cosmos/cosmos-sdk/types"
 
@@ -79,6 +81,182 @@ func safeFirst(key []byte) (a []byte, ok bool) {
 	return strtypes.FirstAddressFromStreamStoreKey(key), true
 }
 
+// structuredAddrPairs: pairs of different addresses that fixed-width, truncating, padding or unprefixed key layouts
+// confuse: (a, a ++ suffix) for lengths 1, 19, 20, 21, 32 against 2, 20, 21..32, 33, 255, with zero and non-zero
+// suffixes; (short, short ++ zero bytes up to 20 and 21); two 32-byte addresses sharing their first 20 bytes; and an
+// address against itself with a length byte in front.
+func structuredAddrPairs() [][2][]byte {
+	seq := func(n int) []byte { // no zero byte; seq(m) is a prefix of seq(n) for m < n
+		bz := make([]byte, n)
+		for i := range bz {
+			bz[i] = byte(i%251) + 1
+		}
+		return bz
+	}
+	cat := func(a []byte, b ...byte) []byte { return append(append([]byte{}, a...), b...) }
+	var ps [][2][]byte
+	for _, p := range [][2]int{{20, 21}, {20, 22}, {20, 24}, {20, 31}, {20, 32}, {20, 33}, {20, 255}, {1, 2}, {1, 20}, {19, 20}, {19, 21}, {21, 32}, {32, 33}, {32, 255}, {254, 255}} {
+		ps = append(ps, [2][]byte{seq(p[0]), seq(p[1])})
+		ps = append(ps, [2][]byte{seq(p[0]), cat(seq(p[0]), make([]byte, p[1]-p[0])...)}) // the suffix is all zero bytes
+	}
+	for _, short := range [][]byte{{0x07}, seq(7), seq(19), {0x00}} {
+		for _, n := range []int{20, 21} {
+			ps = append(ps, [2][]byte{short, cat(short, make([]byte, n-len(short))...)})
+		}
+	}
+	common := bytes.Repeat([]byte{0xAB}, 20)
+	ps = append(ps, [2][]byte{cat(common, bytes.Repeat([]byte{0x01}, 12)...), cat(common, bytes.Repeat([]byte{0x02}, 12)...)})
+	ps = append(ps, [2][]byte{cat(seq(20), 0x14), cat([]byte{0x14}, seq(20)...)})
+	ps = append(ps, [2][]byte{seq(20), cat([]byte{0x14}, seq(20)...)})
+	return ps
+}
+
+// hexShort writes long byte strings as their first 24 bytes and the length
+func hexShort(bz []byte) string {
+	if len(bz) <= 24 {
+		return fmt.Sprintf("%x", bz)
+	}
+	return fmt.Sprintf("%x..(%d bytes)", bz[:24], len(bz))
+}
+
+// capFailures keeps the first few failures of a group and says how many more there were
+func capFailures(fs []monFailure, keep int) []monFailure {
+	if len(fs) <= keep {
+		return fs
+	}
+	out := append([]monFailure{}, fs[:keep]...)
+	last := fs[keep]
+	last.What = fmt.Sprintf("(%d more failures of this kind not listed) %s", len(fs)-keep-1, last.What)
+	return append(out, last)
+}
+
+type builtKey struct {
+	logical string // store section and logical key, as (abbreviated) text; the section name comes first
+	id      string // the logical key in full: two keys are the same logical key iff their ids are equal
+	bz      []byte
+}
+
+// keyLaws evaluates, on the implementation's own bytes, injectivity (different logical keys of one store have different
+// bytes) over all the keys given, and returns the collisions as C18 failures.
+func keyLaws(store string, ks []builtKey) []monFailure {
+	var out []monFailure
+	seen := map[string]builtKey{}
+	for _, k := range ks {
+		if prev, ok := seen[string(k.bz)]; ok && prev.id != k.id {
+			out = append(out, monFailure{Property: "C18", OpIndex: -1, History: -1, What: fmt.Sprintf("%s store: two different logical keys are built into the same bytes %s: %s and %s", store, hexShort(k.bz), prev.logical, k.logical)})
+			continue
+		}
+		seen[string(k.bz)] = k
+	}
+	return capFailures(out, 8)
+}
+
+// keeperIsolation: set / get / delete through the keepers on scratch (cache) contexts of a real application, for every
+// structured pair: what is stored for one address must not be read, overwritten or removed through the other.
+func keeperIsolation(pairs [][2][]byte) (fails []monFailure, checks int) {
+	c := newChain(fixedCfg())
+	defer c.close()
+	if c.begin(2*time.Second) != nil {
+		return nil, 0
+	}
+	base := c.ctx()
+	ek, sk := c.app.EnterpriseKeeper, c.app.StreamKeeper
+	fail := func(format string, a ...interface{}) {
+		fails = append(fails, monFailure{Property: "C18", OpIndex: -1, History: -1, What: "keeper isolation: " + fmt.Sprintf(format, a...)})
+	}
+	for _, p := range pairs {
+		x, y := sdk.AccAddress(p[0]), sdk.AccAddress(p[1])
+		name := fmt.Sprintf("addresses %s (%d bytes) and %s (%d bytes)", hexShort(p[0]), len(p[0]), hexShort(p[1]), len(p[1]))
+		ok := safely(func() {
+			ctx, _ := base.CacheContext()
+			// locked eFUND
+			if ek.SetLockedUndForAccount(ctx, enttypes.LockedUnd{Owner: x.String(), Amount: sdk.NewInt64Coin("nund", 11)}) != nil {
+				return
+			}
+			if got := ek.GetLockedUndForAccount(ctx, y); !got.Amount.IsZero() || ek.AccountHasLockedUnd(ctx, y) {
+				fail("locked eFUND stored for the first of %s is read through the second (%s)", name, got.Amount)
+			}
+			ek.SetLockedUndForAccount(ctx, enttypes.LockedUnd{Owner: y.String(), Amount: sdk.NewInt64Coin("nund", 22)})
+			gx, gy := ek.GetLockedUndForAccount(ctx, x), ek.GetLockedUndForAccount(ctx, y)
+			if gx.Amount.Amount.Int64() != 11 || gy.Amount.Amount.Int64() != 22 || gx.Owner != x.String() || gy.Owner != y.String() {
+				fail("locked eFUND 11 and 22 stored for %s reads back as %s (owner %s) and %s (owner %s)", name, gx.Amount, gx.Owner, gy.Amount, gy.Owner)
+			}
+			if n := len(ek.GetAllLockedUnds(ctx)); n != 2 {
+				fail("after storing locked eFUND for %s the store lists %d entries", name, n)
+			}
+			// spent eFUND
+			ek.SetSpentEFUNDForAccount(ctx, enttypes.SpentEFUND{Owner: x.String(), Amount: sdk.NewInt64Coin("nund", 33)})
+			if got := ek.GetSpentEFUNDForAccount(ctx, y); !got.Amount.IsZero() || ek.AccountHasSpentEFUND(ctx, y) {
+				fail("spent eFUND stored for the first of %s is read through the second (%s)", name, got.Amount)
+			}
+			ek.SetSpentEFUNDForAccount(ctx, enttypes.SpentEFUND{Owner: y.String(), Amount: sdk.NewInt64Coin("nund", 44)})
+			sx, sy := ek.GetSpentEFUNDForAccount(ctx, x), ek.GetSpentEFUNDForAccount(ctx, y)
+			if sx.Amount.Amount.Int64() != 33 || sy.Amount.Amount.Int64() != 44 || sx.Owner != x.String() || sy.Owner != y.String() {
+				fail("spent eFUND 33 and 44 stored for %s reads back as %s (owner %s) and %s (owner %s)", name, sx.Amount, sx.Owner, sy.Amount, sy.Owner)
+			}
+			if n := len(ek.GetAllSpentEFUNDs(ctx)); n != 2 {
+				fail("after storing spent eFUND for %s the store lists %d entries", name, n)
+			}
+			// whitelist: adding one does not add the other, removing one does not remove the other
+			before := len(ek.GetAllWhitelistedAddresses(ctx))
+			ek.AddAddressToWhitelist(ctx, x)
+			if !ek.AddressIsWhitelisted(ctx, x) || ek.AddressIsWhitelisted(ctx, y) {
+				fail("whitelisting the first of %s: first listed %v, second listed %v", name, ek.AddressIsWhitelisted(ctx, x), ek.AddressIsWhitelisted(ctx, y))
+			}
+			ek.AddAddressToWhitelist(ctx, y)
+			if n := len(ek.GetAllWhitelistedAddresses(ctx)); n != before+2 {
+				fail("whitelisting both of %s added %d entries", name, n-before)
+			}
+			ek.RemoveAddressFromWhitelist(ctx, x)
+			if ek.AddressIsWhitelisted(ctx, x) || !ek.AddressIsWhitelisted(ctx, y) {
+				fail("removing the first of %s from the whitelist: first listed %v, second listed %v", name, ek.AddressIsWhitelisted(ctx, x), ek.AddressIsWhitelisted(ctx, y))
+			}
+			// streams: as receivers of one sender, as senders to one receiver, and to each other
+			other := c.addrOf(0)
+			mkS := func(rate int64) strtypes.Stream {
+				return strtypes.Stream{Deposit: sdk.NewInt64Coin("nund", 0), FlowRate: rate, LastOutflowTime: c.now, DepositZeroTime: c.now, Cancellable: true}
+			}
+			type rs struct{ r, s sdk.AccAddress }
+			all := []rs{{x, other}, {y, other}, {other, x}, {other, y}, {x, y}, {y, x}}
+			for i, q := range all {
+				if _, found := sk.GetStream(ctx, q.r, q.s); found {
+					fail("streams of %s: stream %d exists before it is created", name, i)
+				}
+				sk.SetStream(ctx, q.r, q.s, mkS(int64(100+i)))
+			}
+			for i, q := range all {
+				if st, found := sk.GetStream(ctx, q.r, q.s); !found || st.FlowRate != int64(100+i) {
+					fail("streams of %s: stream %d (receiver %s, sender %s) reads back found=%v rate %d, stored with rate %d", name, i, hexShort(q.r), hexShort(q.s), found, st.FlowRate, 100+i)
+				}
+			}
+			n := 0
+			sk.IterateAllStreams(ctx, func(r, s sdk.AccAddress, st strtypes.Stream) bool {
+				n++
+				for i, q := range all {
+					if st.FlowRate == int64(100+i) && (!r.Equals(q.r) || !s.Equals(q.s)) {
+						fail("streams of %s: the stream stored for (receiver %s, sender %s) is iterated as (receiver %s, sender %s)", name, hexShort(q.r), hexShort(q.s), hexShort(r), hexShort(s))
+					}
+				}
+				return false
+			})
+			if n != len(all) {
+				fail("streams of %s: %d streams stored, %d iterated", name, len(all), n)
+			}
+			sk.DeleteStream(ctx, all[0].r, all[0].s)
+			for i, q := range all[1:] {
+				if _, found := sk.GetStream(ctx, q.r, q.s); !found {
+					fail("streams of %s: deleting stream 0 removed stream %d", name, i+1)
+				}
+			}
+		})
+		if !ok {
+			fail("a keeper call panicked for %s", name)
+		}
+		checks++
+	}
+	return capFailures(fails, 12), checks
+}
+
 func cmdKeys(args []string) {
 	fs := flag.NewFlagSet("keys", flag.ExitOnError)
 	out := fs.String("out", ".", "output directory")
@@ -115,6 +293,92 @@ func cmdKeys(args []string) {
 	add("const", "KCPrefix bcn_prefix_records_all "+coqBytes(bcntypes.RecordedBeaconTimestampPrefix))
 	add("const", "KCPrefix bcn_prefix_limits "+coqBytes(bcntypes.BeaconStorageLimitPrefix))
 	add("const", "KCPrefix str_prefix_all "+coqBytes(strtypes.StreamKeyPrefix))
+
+	// the stream key of (receiver a, sender b) with its prefix and the two parsers' answers
+	addStream := func(a, b []byte) []byte {
+		key := strtypes.GetStreamKey(sdk.AccAddress(a), sdk.AccAddress(b))
+		add("str.stream", fmt.Sprintf("KCStr (SkStream %s %s) %s", coqBytes(a), coqBytes(b), coqBytes(key)))
+		add("str.receiver_prefix", fmt.Sprintf("KCPrefix (str_prefix_receiver %s) %s", coqBytes(a), coqBytes(strtypes.GetStreamsByReceiverKey(sdk.AccAddress(a)))))
+		pr, ps, ok := safeParse(key)
+		if ok {
+			add("str.parse", fmt.Sprintf("KCStrParse %s %s (Some (%s, %s))", coqBytes(a), coqBytes(b), coqBytes(pr), coqBytes(ps)))
+		} else {
+			add("str.parse", fmt.Sprintf("KCStrParse %s %s None", coqBytes(a), coqBytes(b)))
+		}
+		// what AllStreamsForReceiver does: prefix store strips 0x11 ++ lp(receiver); helper reads the sender
+		stripped := key[len(strtypes.GetStreamsByReceiverKey(sdk.AccAddress(a))):]
+		fa, ok2 := safeFirst(stripped)
+		if ok2 {
+			add("str.first", fmt.Sprintf("KCStrFirst %s %s (Some %s)", coqBytes(a), coqBytes(b), coqBytes(fa)))
+		} else {
+			add("str.first", fmt.Sprintf("KCStrFirst %s %s None", coqBytes(a), coqBytes(b)))
+		}
+		return key
+	}
+
+	// structured address pairs, as one block (the pair laws are evaluated per file): every address-keyed builder of
+	// x/enterprise and the stream key builder on both members of each pair; the same laws are evaluated here on the
+	// implementation's bytes, over the whole block
+	var failures []monFailure
+	pairs := structuredAddrPairs()
+	{
+		var entKeys, strKeys []builtKey
+		emitted := map[string]bool{}
+		third := []byte{0x5a, 0x5b, 0x5c, 0x5d, 0x5e, 0x5f, 0x60, 0x61, 0x62, 0x63, 0x64, 0x65, 0x66, 0x67, 0x68, 0x69, 0x6a, 0x6b, 0x6c, 0x6d}
+		for _, p := range pairs {
+			for _, a := range p {
+				if emitted[string(a)] {
+					continue
+				}
+				emitted[string(a)] = true
+				acc := sdk.AccAddress(a)
+				lk, sk, wk := enttypes.LockedUndAddressStoreKey(acc), enttypes.SpentEFUNDAddressStoreKey(acc), enttypes.WhitelistAddressStoreKey(acc)
+				add("ent.locked", fmt.Sprintf("KCEnt (EkLocked %s) %s", coqBytes(a), coqBytes(lk)))
+				add("ent.spent", fmt.Sprintf("KCEnt (EkSpent %s) %s", coqBytes(a), coqBytes(sk)))
+				add("ent.whitelist", fmt.Sprintf("KCEnt (EkWhitelist %s) %s", coqBytes(a), coqBytes(wk)))
+				entKeys = append(entKeys, builtKey{fmt.Sprintf("locked(%s)", hexShort(a)), "locked" + string(a), lk}, builtKey{fmt.Sprintf("spent(%s)", hexShort(a)), "spent" + string(a), sk},
+					builtKey{fmt.Sprintf("whitelist(%s)", hexShort(a)), "whitelist" + string(a), wk})
+			}
+			x, y := p[0], p[1]
+			for _, q := range [][2][]byte{{x, third}, {y, third}, {third, x}, {third, y}, {x, y}, {y, x}} {
+				id := string(q[0]) + "|" + fmt.Sprint(len(q[0])) + "|" + string(q[1])
+				if emitted[id] {
+					continue
+				}
+				emitted[id] = true
+				strKeys = append(strKeys, builtKey{fmt.Sprintf("stream(receiver %s, sender %s)", hexShort(q[0]), hexShort(q[1])), id, addStream(q[0], q[1])})
+			}
+			// isolation of the by-receiver prefixes: the range of one receiver holds no key of another
+			for _, q := range [][2][]byte{{x, y}, {y, x}} {
+				pre := strtypes.GetStreamsByReceiverKey(sdk.AccAddress(q[0]))
+				if key := strtypes.GetStreamKey(sdk.AccAddress(q[1]), sdk.AccAddress(third)); bytes.HasPrefix(key, pre) {
+					failures = append(failures, monFailure{Property: "C18", OpIndex: -1, History: -1, What: fmt.Sprintf("stream store: the key of a stream to receiver %s lies in the by-receiver range of the different receiver %s", hexShort(q[1]), hexShort(q[0]))})
+				}
+			}
+		}
+		for _, k := range []builtKey{{"highest-po", "", enttypes.HighestPurchaseOrderIDKey}, {"params", "", enttypes.ParamsKey}, {"total-spent", "", enttypes.TotalSpentEFUNDKey}, {"total-locked", "", enttypes.TotalLockedUndKey},
+			{"po(1)", "", enttypes.PurchaseOrderKey(1)}, {"raised(1)", "", enttypes.RaisedQueueStoreKey(1)}, {"accepted(1)", "", enttypes.AcceptedQueueStoreKey(1)}} {
+			k.id = "const:" + k.logical
+			entKeys = append(entKeys, k)
+		}
+		strKeys = append(strKeys, builtKey{"params", "const:params", strtypes.ParamsKey})
+		failures = append(failures, keyLaws("enterprise", entKeys)...)
+		failures = append(failures, keyLaws("stream", strKeys)...)
+		// an address-keyed entry must stay inside its own section: no key of one section extends the prefix of another
+		for _, k := range entKeys {
+			for _, sec := range []struct {
+				name string
+				pre  []byte
+			}{{"locked", enttypes.LockedUndAddressKeyPrefix}, {"spent", enttypes.SpentEFUNDAddressKeyPrefix}, {"whitelist", enttypes.WhitelistKeyPrefix}} {
+				if bytes.HasPrefix(k.bz, sec.pre) != strings.HasPrefix(k.logical, sec.name+"(") {
+					failures = append(failures, monFailure{Property: "C18", OpIndex: -1, History: -1, What: fmt.Sprintf("enterprise store: key %s of %s and the range of section %s", hexShort(k.bz), k.logical, sec.name)})
+				}
+			}
+		}
+	}
+	kfails, kchecks := keeperIsolation(pairs)
+	failures = append(failures, kfails...)
+	kinds["keeper.isolation_pairs"] = kchecks
 
 	for i := 0; i < *n; i++ {
 		id, h := randID(r), randID(r)
@@ -153,23 +417,7 @@ func cmdKeys(args []string) {
 		case 11:
 			add("bcn.limit", fmt.Sprintf("KCBcn (RkLimit %s) %s", coqN(id), coqBytes(bcntypes.BeaconStorageLimitKey(id))))
 		default:
-			key := strtypes.GetStreamKey(sdk.AccAddress(a), sdk.AccAddress(b))
-			add("str.stream", fmt.Sprintf("KCStr (SkStream %s %s) %s", coqBytes(a), coqBytes(b), coqBytes(key)))
-			add("str.receiver_prefix", fmt.Sprintf("KCPrefix (str_prefix_receiver %s) %s", coqBytes(a), coqBytes(strtypes.GetStreamsByReceiverKey(sdk.AccAddress(a)))))
-			pr, ps, ok := safeParse(key)
-			if ok {
-				add("str.parse", fmt.Sprintf("KCStrParse %s %s (Some (%s, %s))", coqBytes(a), coqBytes(b), coqBytes(pr), coqBytes(ps)))
-			} else {
-				add("str.parse", fmt.Sprintf("KCStrParse %s %s None", coqBytes(a), coqBytes(b)))
-			}
-			// what AllStreamsForReceiver does: prefix store strips 0x11 ++ lp(receiver); helper reads the sender
-			stripped := key[len(strtypes.GetStreamsByReceiverKey(sdk.AccAddress(a))):]
-			fa, ok2 := safeFirst(stripped)
-			if ok2 {
-				add("str.first", fmt.Sprintf("KCStrFirst %s %s (Some %s)", coqBytes(a), coqBytes(b), coqBytes(fa)))
-			} else {
-				add("str.first", fmt.Sprintf("KCStrFirst %s %s None", coqBytes(a), coqBytes(b)))
-			}
+			addStream(a, b)
 		}
 		distinct[items[len(items)-1]] = true
 	}
@@ -191,8 +439,8 @@ func cmdKeys(args []string) {
 	}
 	writeJSON(filepath.Join(*out, "stats_keys.json"), map[string]interface{}{
 		"files": files, "evaluations": len(items), "distinct_nontrivial": len(distinct),
-		"rule":         "every key builder / prefix / stream-key parser of the four keys.go on ids from a boundary table (0, 2^8.., 2^63, 2^64-1) or random, addresses of length 1..255 (20/32 favoured, bytes 0x00/0xff/len favoured, receivers that are byte-prefixes of other receivers); distinct = distinct generated (logical key, bytes) lines",
+		"rule":         "every key builder / prefix / stream-key parser of the four keys.go on ids from a boundary table (0, 2^8.., 2^63, 2^64-1) or random, addresses of length 1..255 (20/32 favoured, bytes 0x00/0xff/len favoured, receivers that are byte-prefixes of other receivers), preceded by a block of structured address pairs (a, a ++ suffix) / (short, short ++ zero bytes) for the address-keyed builders of x/enterprise and x/stream whose injectivity, section isolation and keeper-level set/get/delete isolation are also evaluated on the implementation side; distinct = distinct generated (logical key, bytes) lines",
 		"distribution": map[string]interface{}{"by_kind": kinds},
-		"samples":      samples,
+		"samples":      samples, "go_monitor_failures": failures,
 	})
 }
